@@ -1,6 +1,6 @@
 /-
   Line-protocol driver for the model (compiled, Mathlib-free).
-  Request (one per line):   <cmd> <opts> <input>
+  Request (one per line, TAB separated):   <cmd> <opts> <input> [<extra>...]
     cmd   = parse | single | split
     opts  = s=<0|1>,l=<N|int>,c=<0|1>,p=<0|1>     (strict, limit, convertpos, proceed)
     input = code points in hex joined by '.', "" for the empty string ("-" also means empty)
@@ -35,8 +35,8 @@ def showTouched (t : List Char) : String :=
   joinWith "." ((t.map (·.toNat)).toArray.qsort (· < ·) |>.toList.map hexOf)
 
 def handle (line : String) : String :=
-  match line.splitOn " " with
-  | [cmd, opts, inp] =>
+  match line.splitOn "\t" with
+  | cmd :: opts :: inp :: extra =>
     let s := parseHexInput inp
     let o := parseOpts opts
     let src := if o.convertpos then some s else none
@@ -44,13 +44,13 @@ def handle (line : String) : String :=
     | "parse" => let (r, t) := parse s o; showOutcome src r ++ " ## " ++ showTouched t
     | "single" => let (r, t) := parsesingle s o; showOutcome src r ++ " ## " ++ showTouched t
     | "split" => let (r, t) := split s; showOutcome none r ++ " ## " ++ showTouched t
-    | _ => specHandle cmd opts inp
+    | _ => specHandle cmd opts inp extra
   | _ => "BAD-REQUEST"
 
 partial def loop (hin : IO.FS.Stream) (hout : IO.FS.Stream) : IO Unit := do
   let line ← hin.getLine
   if line.isEmpty then return ()
-  let line := (line.dropRightWhile (fun c => c == '\n' || c == '\r'))
+  let line := String.ofList (line.toList.reverse.dropWhile (fun c => c == '\n' || c == '\r')).reverse
   hout.putStrLn (handle line)
   loop hin hout
 
